@@ -242,6 +242,21 @@ CLAIMS["C13"] = dict(
     technique="TLC-enumerated setter histories executed in six versions; TLA+ setter/getter relation evaluated by TLC on every recorded step",
     design="DESIGN.md §3.4, §4 C13")
 
+CLAIMS["C12"] = dict(
+    category="model_checking",
+    text=("MeshOps!ConvertViol states the per-shape relation (positions bit-exact, same triangle set, UVs and colours within storage precision, "
+          "only all-white colours may be dropped, same bone list, per-vertex weights within 3/1000, shader and parent kept, sibling names "
+          "distinct). TLC (MeshMC, family convert) enumerates every combination of the five conversion options x direction x model "
+          "features (skinned, vertex colours, a stitched NiTriStrips shape, two dismember partitions with different bone palettes, "
+          "duplicate sibling names); the harness builds each model, converts, saves, reloads in the target version and converts back; "
+          "TLC judges the relation on the converted model, on the reloaded file together with the partition invariants of C10, and on "
+          "the there-and-back result. The LE/SE sample files are converted with default and head-part options."),
+    note=("Head-part conversion is exercised only where the option is meaningful (skinned shapes; dynamic shapes on the SE side). A source "
+          "whose per-vertex weights are not visible through the accessor is not compared on weights. Quick tier: a seeded quarter of the "
+          "enumerated combinations."),
+    technique="TLC-enumerated option/feature combinations executed on constructed and sample models; TLA+ conversion relation evaluated by TLC on every record",
+    design="DESIGN.md §3.4, §4 C12")
+
 NOT_YET = {}
 
 
